@@ -42,7 +42,7 @@ ROOTS = ['ComplexModel', 'Array', 'Iterable', 'XmlAttribute']
 MODEL_KEYS = ['min_occurs', 'max_occurs', 'nillable', 'default', 'values', 'sub_name', 'exc', 'exc_table', 'exc_db',
               'validate_on_assignment', 'read_only', 'min_len', 'max_len', 'pattern', 'ge', 'gt', 'le', 'lt',
               'total_digits', 'fraction_digits', 'max_str_len', 'min_bound', 'max_bound', 'encoding', 'foo',
-              'primary_key', 'index', 'unique']
+              'primary_key', 'index', 'unique', '_pattern_re']
 # attributes that every customisation (re)creates for its own bookkeeping; never part of the observation
 BOOKKEEPING = {'parent_variant', 'child_attrs', 'child_attrs_all', 'child_attrs_noexc', 'sqla_mapper_args', 'methods'}
 
@@ -144,13 +144,17 @@ def attrs_of(cls, keys=MODEL_KEYS):
     for k in keys:
         v = getattr(cls.Attributes, k, _ABSENT)
         if v is not _ABSENT:
+            if k == '_pattern_re' and v is not None:
+                v = v.pattern       # the hidden compiled regex the `pattern` property setter stores
             out.append([k, aval(v)])
     return out
 
 
 # verdict probes shared with the model: native values and string lengths
-PROBE_INTS = [-1, 0, 1, 5, 10, 127, 128, 255, 256, 2147483647, 2147483648]
-PROBE_LENS = [0, 1, 2, 5, 10, 12]
+PROBE_INTS = [-6, -5, -4, -1, 0, 1, 2, 3, 4, 5, 10, 99, 100, 101, 127, 128, 254, 255, 256, 299, 300, 301,
+              2147483647, 2147483648, 2147483649]
+PROBE_LENS = [0, 1, 2, 3, 4, 5, 6, 9, 10, 11, 12, 20, 21]
+PROBE_STRS = ['', 'a', 'aa', 'ab', 'b', 'abc', '7', '42', 'A1']
 
 
 def verdicts(cls):
@@ -162,6 +166,7 @@ def verdicts(cls):
         out += [bool(cls.validate_string(cls, '1' * n)) for n in PROBE_LENS]
     elif k == 'unicode':
         out += [bool(cls.validate_string(cls, 'a' * n)) for n in PROBE_LENS]
+        out += [bool(cls.validate_native(cls, s)) for s in PROBE_STRS]
     return out
 
 
@@ -294,6 +299,9 @@ class Impl:
                     body[n] = self.pool[t]
                 base = cx.ComplexModel if op.get('base') is None else self.pool[op['base']]
                 body['__module__'] = 'c15hist'
+                if op.get('attrs') is not None:
+                    # class K(Base):  class Attributes(Base.Attributes): <assignments>
+                    body['Attributes'] = type(base.Attributes)('Attributes', (base.Attributes,), dict(self.kw(op['attrs'])))
                 new = cx.ComplexModelMeta(op['name'], (base,), body)
             elif k == 'append':
                 self.pool[op['c']].append_field(op['name'], self.pool[op['t']])
@@ -454,7 +462,7 @@ COMMON_KW = {
 NUMBER_KW = {'ge': [-5, 0, 3, 100, 300], 'gt': [-5, 0, 3, 100, 255, 300], 'le': [-5, 0, 3, 100, 300, 2 ** 31],
              'lt': [-5, 0, 3, 100, 300], 'total_digits': [3, 10], 'fraction_digits': [0, 2, 12],
              'max_str_len': [5, 20], 'values': [[1, 2, 3], [0], []], 'default': [None, 0, 7]}
-UNICODE_KW = {'min_len': [0, 1, 3], 'max_len': [2, 5, 10, INF], 'pattern': ['[a-z]+', 'a*', None],
+UNICODE_KW = {'min_len': [0, 1, 3], 'max_len': [2, 5, 10, INF], 'pattern': ['[a-z]+', 'a*', '[0-9]+', '[a-z]*', None],
               'values': [['a', 'b'], ['abc'], []], 'default': [None, 'x', 'abc']}
 SIMPLE_TN = {'type_name': ['STn', 'Other']}
 COMPLEX_KW = {'type_name': ['Ren', 'Ren2'], 'namespace': ['ns.a', 'ns.b']}
@@ -508,7 +516,22 @@ def gen_op(rng, impl, step, serial):
     if name == 'cust_simple':
         i = rng.choice(simple + [j for j in idx if kinds[j] == 'xmlattr'][:1])
         k = kinds[i] if kinds[i] != 'xmlattr' else 'simple'
-        return {'k': 'cust', 'src': i, 'kw': gen_kw(rng, k)}
+        kw = gen_kw(rng, k)
+        derived = [j for j in simple if j >= len(BASES)]
+        if derived and rng.random() < 0.45:
+            # re-derive a facet the source already customised, with another value (depth >= 2)
+            i = rng.choice(derived)
+            k = kinds[i]
+            kw = gen_kw(rng, k)
+            own = vars(pool[i].Attributes)
+            table = dict(NUMBER_KW if k == 'number' else UNICODE_KW if k == 'unicode' else {})
+            again = [a for a in sorted(table) if a in own or '_' + a in own]
+            for a in rng.sample(again, min(len(again), rng.choice([1, 1, 2]))):
+                cur = getattr(pool[i].Attributes, a, None)
+                other = [v for v in table[a] if cval(v) != cval(cur)]
+                if other:
+                    kw = [p for p in kw if p[0] != a] + [[a, aval(rng.choice(other))]]
+        return {'k': 'cust', 'src': i, 'kw': kw}
     if name in ('cust_complex', 'cust_array'):
         i = rng.choice(cplx if name == 'cust_complex' else arrs)
         op = {'k': 'cust', 'src': i, 'kw': gen_kw(rng, 'complex')}
@@ -530,8 +553,15 @@ def gen_op(rng, impl, step, serial):
         cand = [i for i in cplx if pool[i].__orig__ is None or len(pool[i]._type_info) > 0]
         if cand and rng.random() < 0.55:
             base = rng.choice(cand)
-        return {'k': 'sub', 'name': 'K%d_%d' % (serial, step), 'base': base, 'ns': rng.choice([None, 'ns.a', 'ns.k']),
-                'fields': fields}
+        op = {'k': 'sub', 'name': 'K%d_%d' % (serial, step), 'base': base, 'ns': rng.choice([None, 'ns.a', 'ns.k']),
+              'fields': fields}
+        if rng.random() < 0.4:
+            # the class declares its own `class Attributes(Base.Attributes)`, with or without assignments
+            table = {'min_occurs': [0, 1], 'max_occurs': [1, 2], 'nillable': [True, False], 'sub_name': ['alt'],
+                     'exc': [False], 'foo': [42]}
+            ks = rng.sample(sorted(table), rng.choice([0, 0, 1, 2]))
+            op['attrs'] = [[a, aval(rng.choice(table[a]))] for a in ks]
+        return op
     if name == 'array':
         op = {'k': 'array', 'src': rng.choice(idx), 'kw': gen_kw(rng, 'complex', n=rng.choice([0, 0, 1, 2]))}
         r = rng.random()
@@ -588,6 +618,18 @@ def measure_facts():
     A1 = Ab.customize(min_occurs=1)
     Bb.append_field('zz', P.Unicode)
     f['varRule'] = 'inheritedFromBase' if 'zz' in A1._type_info else 'ownPerClass'
+    # ... and when the subclass declares its own `class Attributes(Base.Attributes)`?
+    Ax = cx.ComplexModelMeta('C15FactAX', (cx.ComplexModel,), odict([('__module__', 'c15hist'), ('a', P.Integer)]))
+    Bx = cx.ComplexModelMeta('C15FactBX', (Ax,), odict([('__module__', 'c15hist'),
+                             ('Attributes', type(Ax.Attributes)('Attributes', (Ax.Attributes,), {'some_option': 42})),
+                             ('b', P.Integer)]))
+    A1x = Ax.customize(min_occurs=1)
+    Bx.customize(min_occurs=1)
+    Bx.append_field('zz', P.Unicode)
+    f['varRuleX'] = 'inheritedFromBase' if 'zz' in A1x._type_info else 'ownPerClass'
+    # does re-deriving `pattern` recompile the regex that validation uses?
+    pa = P.Unicode(pattern='[a-z]+')(pattern='[0-9]+')
+    f['patRule'] = 'always' if pa.Attributes._pattern_re.pattern == '[0-9]+' else 'onlyWhenUnset'
     # does customising a number keep its max_str_len?
     f['mslRule'] = 'followsRequested' if (P.Integer32(ge=0).Attributes.max_str_len == P.Integer32.Attributes.max_str_len
                                           and P.Decimal(total_digits=5).Attributes.max_str_len == 7) else 'resetsFromParent'
@@ -621,7 +663,7 @@ def measure_facts():
     return f
 
 
-GOOD = {'mandRule': 'copies', 'varRule': 'ownPerClass', 'mslRule': 'followsRequested', 'colCopy': 'deep',
+GOOD = {'mandRule': 'copies', 'varRule': 'ownPerClass', 'varRuleX': 'ownPerClass', 'patRule': 'always', 'mslRule': 'followsRequested', 'colCopy': 'deep',
         'dictOrdered': True}
 
 
@@ -677,6 +719,8 @@ open SpyneModel.Derive
 def facts15 : Facts15 where
   mandRule := .%s
   varRule := .%s
+  varRuleX := .%s
+  patRule := .%s
   mslRule := .%s
   colCopy := .%s
   dictOrdered := %s
@@ -696,7 +740,7 @@ def facts15 : Facts15 where
   xmlattrRoot := %d
 
 end SpyneModel.Generated
-''' % (f['mandRule'], f['varRule'], f['mslRule'], f['colCopy'], b(f['dictOrdered']), lean_str(f['mandPrefix']), lean_str(f['mandSuffix']),
+''' % (f['mandRule'], f['varRule'], f['varRuleX'], f['patRule'], f['mslRule'], f['colCopy'], b(f['dictOrdered']), lean_str(f['mandPrefix']), lean_str(f['mandSuffix']),
        lean_str(f['arrPrefix']), lean_str(f['arrSuffix']), ', '.join(lean_str(s) for s in f['prefNs']),
        ', '.join(lean_str(s) for s in MODEL_KEYS), lean_kw(f['numDefaults']), lean_kw(f['uniDefaults']),
        ',\n'.join(lines), names.index('ComplexModel'), names.index('Array'), names.index('Iterable'),
@@ -816,6 +860,43 @@ def check_exact(ctx, new, src, kw, opk, report):
         report('exact:%s:kind' % opk, 'the derived class is of another kind')
 
 
+def expected_verdicts(c):
+    """the verdict function of a type computed from its *public* facets only (the specification):
+    (validate_native on the probes, validate_string on the probes)"""
+    import re
+    A = c.Attributes
+    k = kind_of(c)
+    nil = bool(A.nullable)
+
+    def in_values(v):
+        vals = A.values
+        return vals is None or len(vals) == 0 or v in vals
+    if k == 'number':
+        lo = hi = None
+        for n, (l, u) in HW_BOUNDS.items():
+            if issubclass(c, base_class(n)):
+                lo = l if lo is None or (l is not None and l > lo) else lo
+                hi = u if hi is None or (u is not None and u < hi) else hi
+        native = [in_values(v) and v > A.gt and v >= A.ge and v < A.lt and v <= A.le
+                  and (lo is None or v >= lo) and (hi is None or v <= hi) for v in PROBE_INTS]
+        string = [n <= A.max_str_len for n in PROBE_LENS]
+    elif k == 'unicode':
+        pat = A.pattern
+        native = [in_values(x) and (pat is None or re.fullmatch(pat, x) is not None) for x in PROBE_STRS]
+        string = [A.min_len <= n <= A.max_len for n in PROBE_LENS]
+    else:
+        return None
+    return [nil, nil] + [bool(x) for x in native], [bool(x) for x in string]
+
+
+def actual_verdicts(c):
+    k = kind_of(c)
+    probes = PROBE_INTS if k == 'number' else PROBE_STRS
+    mk = (lambda n: '1' * n) if k == 'number' else (lambda n: 'a' * n)
+    return ([bool(c.validate_native(c, None)), bool(c.validate_string(c, None))]
+            + [bool(c.validate_native(c, v)) for v in probes], [bool(c.validate_string(c, mk(n))) for n in PROBE_LENS])
+
+
 def schema_seq_names(fragment):
     if not fragment or fragment.startswith('exc:'):
         return None
@@ -932,6 +1013,24 @@ class Oracle:
                 self.report('frame:%s:%s:%s' % (k, kind_of(c), '+'.join(changed)),
                             '%s (%s) changed a %s it must leave alone (%s: %s)' % (k, res, kind_of(c), c.__name__, ', '.join(changed)),
                             {'changed': json.loads(json.dumps(detail, default=str))})
+        # ---- the verdict function of every new type is the one its public facets call for
+        for i, c in impl.registry.items():
+            if i in self.prev:
+                continue
+            try:
+                exp = expected_verdicts(c)
+                act = actual_verdicts(c) if exp is not None else None
+            except Exception as e:          # facets the probes cannot be compared with
+                self.ctx.hit('verdict-skipped:' + type(e).__name__)
+                continue
+            if exp is not None and exp != act:
+                part = 'native' if exp[0] != act[0] else 'string'
+                self.report('verdict:%s:%s' % (kind_of(c), part),
+                            'validation of a type derived by %s does not follow its facets (%s): pattern=%r values=%r '
+                            'min_len=%r max_len=%r; verdicts %r, facets call for %r' % (
+                                k, part, getattr(c.Attributes, 'pattern', None), getattr(c.Attributes, 'values', None),
+                                getattr(c.Attributes, 'min_len', None), getattr(c.Attributes, 'max_len', None),
+                                act[0 if part == 'native' else 1], exp[0 if part == 'native' else 1]))
         # ---- containers that spyne writes into must not be one object in two Attributes classes
         owners = {}
         for i, c in impl.registry.items():
@@ -1025,6 +1124,9 @@ class Oracle:
                 want = [n for n, _ in op['fields']]
                 if list(new._type_info.keys()) != want:
                     self.report('order:declared', 'declared %r, _type_info has %r' % (want, list(new._type_info.keys())))
+                for a, v in (op.get('attrs') or []):
+                    if cval(getattr(new.Attributes, a, None)) != cval(unaval(v)):
+                        self.report('exact:sub:attrs', 'attribute %s declared in the class statement is not in force' % a)
                 for n, t in op['fields']:
                     if new._type_info[n] is not impl.pool[t]:
                         self.report('exact:sub:fieldtype', 'declared field type replaced')
@@ -1343,6 +1445,19 @@ def other_seeds(ctx, ops_list, seeds):
 FACT_WITNESS = {
     'mandRule': [{'k': 'array', 'src': I_, 'kw': []}, {'k': 'mand', 'src': 8}],
     'varRule': CORPUS[1][1][:5],
+    'varRuleX': [{'k': 'sub', 'name': 'XBase', 'base': None, 'ns': None, 'fields': [['a', U_]]},
+                 {'k': 'sub', 'name': 'XDerived', 'base': 8, 'ns': None, 'fields': [['b', I_]], 'attrs': _kw(foo=42)},
+                 {'k': 'cust', 'src': 8, 'kw': _kw(min_occurs=1)}, {'k': 'cust', 'src': 9, 'kw': _kw(min_occurs=1)},
+                 {'k': 'append', 'c': 9, 'name': 'late', 't': B_}, {'k': 'insert', 'c': 8, 'idx': 0, 'name': 'early', 't': I_},
+                 {'k': 'sub', 'name': 'XD2', 'base': 9, 'ns': None, 'fields': [['c', I_]], 'attrs': []},
+                 {'k': 'cust', 'src': 12, 'kw': _kw(max_occurs=2)}, {'k': 'append', 'c': 12, 'name': 'z', 't': U_},
+                 {'k': 'append', 'c': 9, 'name': 'y', 't': U_}],
+    'patRule': [{'k': 'cust', 'src': U_, 'kw': _kw(pattern='[a-z]+')}, {'k': 'cust', 'src': 8, 'kw': _kw(pattern='[0-9]+')},
+                {'k': 'cust', 'src': 9, 'kw': _kw(pattern=None)}, {'k': 'cust', 'src': 10, 'kw': _kw(pattern='a*', min_len=1)},
+                {'k': 'cust', 'src': 8, 'kw': _kw(min_len=3, max_len=5)}, {'k': 'cust', 'src': 12, 'kw': _kw(min_len=0, max_len=2)},
+                {'k': 'cust', 'src': I_, 'kw': _kw(ge=0, le=100)}, {'k': 'cust', 'src': 14, 'kw': _kw(ge=3, le=300)},
+                {'k': 'cust', 'src': 15, 'kw': _kw(values=[1, 2, 3])}, {'k': 'cust', 'src': 16, 'kw': _kw(values=[0])},
+                {'k': 'cust', 'src': 8, 'kw': _kw(values=['a', 'b'])}, {'k': 'cust', 'src': 18, 'kw': _kw(values=['abc'])}],
     'mslRule': [{'k': 'cust', 'src': I32_, 'kw': _kw(ge=0)}, {'k': 'cust', 'src': D_, 'kw': _kw(total_digits=5)}],
     'colCopy': [{'k': 'cust', 'src': U_, 'kw': _kw(max_len=32)}, {'k': 'cust', 'src': 8, 'kw': _kw(pk=True)},
                 {'k': 'cust', 'src': 8, 'kw': _kw(min_len=2)},
